@@ -72,7 +72,7 @@ Top == k[Len(k)]
 Pop == SubSeq(k, 1, Len(k) - 1)
 
 Bump(c, name) == [c EXCEPT ![name] = @ + 1]
-CntNames == {"runs", "events", "skipped_runs", "rejected", "kind_checks", "const_checks", "err_exits",
+CntNames == {"runs", "events", "skipped_runs", "rejected", "faultcmps", "kind_checks", "const_checks", "err_exits",
              "C01", "C02", "C06", "C07", "C08", "C09", "C12", "C13", "C15", "C16", "C17"}
 
 (* ---------- outcome comparison ---------- *)
@@ -209,11 +209,14 @@ T_Prog ==
 
 T_Start ==
   /\ l <= Len(Rec) /\ Ev.e = "start"
-  /\ run' = [ev |-> Ev.ev, meta |-> Ev.meta, probe |-> FALSE, tops |-> <<>>]
+  /\ run' = [ev |-> Ev.ev, meta |-> Ev.meta, probe |-> FALSE, tops |-> <<>>, writes |-> <<>>, mode |-> Ev.mode,
+              probefault |-> FALSE]
   /\ vars' = <<>>
   /\ k' = << NewFrame([k |-> "prog", s |-> prog.ast], <<>>) >>
   /\ mode' = "run"
-  /\ flags' = {}
+  \* under injected faults a rejected read yields null where the type says otherwise: the static
+  \* facts (C01/C02/C12) are asserted on fault-free runs only
+  /\ flags' = (IF Ev.mode = "plain" THEN {} ELSE {"tainted", "C17"})
   /\ cnt' = Bump(Bump(cnt, "events"), "runs")
   /\ l' = l + 1
   /\ vtag' = <<>>
@@ -296,7 +299,7 @@ T_Target ==
   /\ IF ~run.probe
      THEN \* Runtime::resolve probes the event root before anything else
           IF Ev.op = "get" /\ Ev.pre = "event" /\ Ev.p = <<>> /\ Len(k) = 1
-          THEN /\ run' = [run EXCEPT !.probe = TRUE]
+          THEN /\ run' = [run EXCEPT !.probe = TRUE, !.probefault = Ev.fault]
                /\ cnt' = Bump(cnt, "events")
                /\ UNCHANGED <<k, vars, prog, mode, viols, divs, flags, vtag>>
           ELSE Abandon([prop |-> "D", rule |-> "RootProbe", at |-> "runtime"],
@@ -315,7 +318,9 @@ T_Target ==
                                                  [got |-> Ev.p, expected |-> "covered by ProgramInfo"])))
             /\ flags' = flags \cup {"C16"}
             /\ cnt' = Bump(cnt, "events")
-            /\ run' = [run EXCEPT !.tops = Append(@, Ev.op)]
+            /\ run' = [run EXCEPT !.tops = Append(@, Ev.op),
+                                    !.writes = IF Ev.op \in {"ins", "rem"} /\ ~Ev.fault
+                                               THEN Append(@, [op |-> Ev.op, pre |-> Ev.pre, p |-> Ev.p]) ELSE @]
             /\ UNCHANGED <<vars, prog, mode, divs, vtag>>
        ELSE Abandon(Blame(f), [got |-> "target " \o Ev.op, expected |-> x.a])
 
@@ -339,6 +344,50 @@ FinalFindings(res, viaret) ==
   \o (IF okrun /\ \E j \in 1..Len(prog.cparams) : prog.cparams[j] \in DOMAIN Ev.vars
      THEN << [prop |-> "C13", rule |-> "ParamVisibleAtEnd", at |-> "program"] >> ELSE <<>>)
 
+\* C15: values at read-only paths are unchanged by the run (recursive: deeply; otherwise the value
+\* *at* the path: same scalar, or still a container of the same type - children of a
+\* non-recursively read-only container may change).
+RoRoot(e, ev, meta) == IF e.pre = "event" THEN ev ELSE meta
+Shallow(v) == IF IsNone(v) THEN "none" ELSE IF IsContainer(v) THEN v.t ELSE "scalar"
+ChangeShape(v0, v1) ==
+  CASE IsNone(v1) -> "removed"
+    [] IsNone(v0) -> "created"
+    [] ~IsContainer(v0) /\ IsContainer(v1) -> "scalar-to-container"
+    [] IsContainer(v0) /\ ~IsContainer(v1) -> "container-to-scalar"
+    [] OTHER -> "value-changed"
+PathShape(p) == IF \E j \in 1..Len(p) : IsIndex(p[j]) THEN "index-path" ELSE "field-path"
+\* How a performed write w relates to the read-only entry e.  The compiler's check is syntactic
+\* (CompileConfig::is_read_only_path): it must reject a write to the path itself or a parent, and to
+\* children of a recursive entry.  Everything else names the way the value changed all the same.
+FirstDiff(p, q) == CHOOSE j \in 1..Len(p) : j <= Len(q) /\ p[j] # q[j] /\ \A i \in 1..(j - 1) : p[i] = q[i]
+WriteRel(w, e) ==
+  IF w.pre # e.pre THEN "other-prefix"
+  ELSE IF IsPrefixOf(w.p, e.p) THEN "syntactic-parent-or-self"
+  ELSE IF IsPrefixOf(e.p, w.p) THEN (IF e.rec THEN "syntactic-child-of-recursive" ELSE "child-of-shallow-entry")
+  ELSE LET j == FirstDiff(w.p, e.p) IN
+       IF IsIndex(w.p[j]) /\ IsIndex(e.p[j]) THEN "index-alias-or-shift"
+       ELSE IF IsIndex(w.p[j]) # IsIndex(e.p[j]) THEN "segment-type-mismatch-replaces-container"
+       ELSE "unrelated-field"
+CauseOrder == <<"syntactic-parent-or-self", "syntactic-child-of-recursive", "child-of-shallow-entry",
+                "index-alias-or-shift", "segment-type-mismatch-replaces-container", "unrelated-field", "other-prefix">>
+Cause(e) ==
+  LET rels == {WriteRel(run.writes[j], e) : j \in 1..Len(run.writes)}
+      hits == {j \in 1..Len(CauseOrder) : CauseOrder[j] \in rels}
+  IN IF hits = {} THEN "no-write" ELSE CauseOrder[CHOOSE j \in hits : \A i \in hits : j <= i]
+RoFindings ==
+  LET Check(e) ==
+        LET v0 == Get(RoRoot(e, run.ev, run.meta), e.p)
+            v1 == Get(RoRoot(e, Ev.ev, Ev.meta), e.p)
+            same == IF e.rec THEN v0 = v1
+                    ELSE IF ~IsNone(v0) /\ ~IsNone(v1) /\ IsContainer(v0) THEN v0.t = v1.t
+                    ELSE v0 = v1
+        IN IF same THEN <<>>
+           ELSE << [prop |-> "C15", rule |-> "ReadOnlyUnchanged" \o (IF e.rec THEN ":recursive" ELSE ":shallow"),
+                    at |-> Cause(e)] >>
+      RECURSIVE All(_)
+      All(j) == IF j > Len(prog.ro) THEN <<>> ELSE Check(prog.ro[j]) \o All(j + 1)
+  IN All(1)
+
 ResEq(want, got) ==
   /\ want.r = got.r
   /\ (want.r = "ok" => want.v = got.v)
@@ -349,14 +398,26 @@ T_End ==
   /\ l' = l + 1
   /\ LET f == Top
          x == Expect(f, vars) IN
+     IF run.probefault
+     THEN \* C17: a target whose root cannot be read makes the run end with an error, nothing runs
+          /\ mode' = "idle" /\ k' = <<>> /\ vars' = Ev.vars
+          /\ viols' = (IF Ev.res.r = "error" /\ Len(k) = 1 /\ Len(f.acc) = 0 THEN viols
+                        ELSE Append(viols, Note([prop |-> "C17", rule |-> "RootFaultEndsWithError", at |-> "runtime"],
+                                                [got |-> Ev.res, expected |-> "error"])))
+          /\ cnt' = Bump(Bump(cnt, "events"), "C17")
+          /\ UNCHANGED <<prog, run, divs, flags, vtag>>
+     ELSE
      IF Len(k) = 1 /\ x.a = "exit" /\ x.hv /\ ResEq(FinishOf(x.v), Ev.res)
      THEN /\ mode' = "idle" /\ k' = <<>>
           /\ vars' = Ev.vars
-          /\ viols' = (IF "tainted" \in flags THEN viols
-                        ELSE AddAll(viols, FinalFindings(Ev.res, x.v.o = "ret"), [got |-> Ev.res, expected |-> "final"]))
+          /\ viols' = AddAll((IF "tainted" \in flags THEN viols
+                               ELSE AddAll(viols, FinalFindings(Ev.res, x.v.o = "ret"), [got |-> Ev.res, expected |-> "final"])),
+                              (IF run.mode = "plain" THEN RoFindings ELSE <<>>),
+                              [got |-> [ev |-> Ev.ev, meta |-> Ev.meta], expected |-> [ev |-> run.ev, meta |-> run.meta, ro |-> prog.ro]])
           /\ cnt' = LET c1 == Bump(cnt, "events")
                         Fl(c, s) == IF s \in flags THEN Bump(c, s) ELSE c
-                    IN Fl(Fl(Fl(Fl(Fl(Fl(c1, "C06"), "C07"), "C08"), "C09"), "C13"), "C16")
+                        c2 == IF Len(prog.ro) > 0 /\ Len(run.tops) > 0 THEN Bump(c1, "C15") ELSE c1
+                    IN Fl(Fl(Fl(Fl(Fl(Fl(Fl(c2, "C06"), "C07"), "C08"), "C09"), "C13"), "C16"), "C17")
           /\ UNCHANGED <<prog, run, divs, flags, vtag>>
      ELSE \* the root block did not end the way the machine says: blame the pending control effect
           Abandon((IF Len(k) = 1 /\ x.a = "exit" /\ x.hv /\ x.v.o = "ret"
@@ -386,12 +447,30 @@ T_Panic ==
   /\ l' = l + 1
   /\ UNCHANGED <<vars, prog, run, divs, flags, vtag>>
 
+\* C17: the run with rejected operations must be indistinguishable from a run on a target where
+\* exactly those operations were silently skipped (a rejected read = a missing field, a rejected
+\* write / removal = nothing happened), and it must not have panicked.
+T_FaultCmp ==
+  /\ l <= Len(Rec) /\ Ev.e = "faultcmp"
+  /\ l' = l + 1
+  /\ LET a == Ev.fault  b == Ev.skip
+         same == /\ a.e = "end" /\ b.e = "end"
+                 /\ a.res.r = b.res.r
+                 /\ (a.res.r = "ok" => a.res.v = b.res.v)
+                 /\ a.ev = b.ev /\ a.meta = b.meta /\ a.vars = b.vars
+     IN viols' = (IF same THEN viols
+                  ELSE Append(viols, [prop |-> "C17", rule |-> "FaultEqualsSkip", at |-> "runtime",
+                                      what |-> [got |-> a, expected |-> b, sched |-> Ev.sched],
+                                      prog |-> prog.id, line |-> l]))
+  /\ cnt' = Bump(Bump(cnt, "events"), "faultcmps")
+  /\ UNCHANGED <<k, vars, prog, run, mode, divs, flags, vtag>>
+
 TraceInit ==
   /\ l = 1 /\ k = <<>> /\ vars = <<>> /\ prog = [id |-> 0] /\ run = [probe |-> FALSE]
   /\ mode = "idle" /\ viols = <<>> /\ divs = <<>>
   /\ cnt = [c \in CntNames |-> 0] /\ flags = {} /\ vtag = <<>>
 
-TraceNext == T_Prog \/ T_Start \/ T_Skip \/ T_Enter \/ T_Exit \/ T_Target \/ T_End \/ T_Reject \/ T_Panic
+TraceNext == T_Prog \/ T_Start \/ T_Skip \/ T_Enter \/ T_Exit \/ T_Target \/ T_End \/ T_Reject \/ T_Panic \/ T_FaultCmp
 
 TraceSpec == TraceInit /\ [][TraceNext]_tvars
 
